@@ -455,32 +455,9 @@ func c12Cleared(c *an.Ctx) {
 	if m == nil {
 		return
 	}
-	var del ssa.Instruction
-	an.Instrs(m.fn, func(in ssa.Instruction) {
-		if an.IsBuiltinCall(in, "delete") && an.Expr(an.CallOf(in).Args[0]) == "tx.transformationCache" && !m.loop.Blocks[in.Block()] {
-			del = in
-		}
-	})
-	ok := false
-	if del != nil {
-		if l := an.InnermostLoop(del.Block()); l != nil {
-			w := an.FindPath(an.PathQuery{Fn: m.fn, Stop: func(in ssa.Instruction) bool { return in.Block() == l.Header }, Target: func(in ssa.Instruction) bool { return in == m.call }})
-			exits := 0
-			for _, e := range l.ExitEdges() {
-				if e[0].(*ssa.BasicBlock) != l.Header {
-					exits++
-				}
-			}
-			ok = w == nil && exits == 0 && strings.Contains(an.Expr(an.CallOf(del).Args[1]), "range(tx.transformationCache)")
-		}
-	}
-	an.Instrs(m.fn, func(in ssa.Instruction) {
-		if an.IsBuiltinCall(in, "clear") && an.Expr(an.CallOf(in).Args[0]) == "tx.transformationCache" && in.Block().Dominates(m.call.Block()) && !m.loop.Blocks[in.Block()] {
-			ok = true
-		}
-	})
+	ok, _, same, _ := evalClearsCache(m)
 	c.Check(ok, "R1", "Eval empties the transformation cache before the first rule of the phase", m.fn.Pos(), "every entry deleted before the rule loop", "entries computed in an earlier phase survive into this one: a variable that changed between phases would be evaluated with its stale transformed value")
-	c.Check(an.Expr(an.CallOf(m.call).Args[3]) == "tx.transformationCache", "R1", "the emptied map is the one rules use", m.call.Pos(), "r.Evaluate(..., tx.transformationCache)", "r.Evaluate receives another map")
+	c.Check(same, "R1", "the emptied map is the one rules use", m.call.Pos(), "r.Evaluate(..., tx.transformationCache)", "r.Evaluate receives another map")
 	// only doEvaluate/transformArg write the cache
 	n := 0
 	for _, fn := range c.P.ModFuncs {
